@@ -1710,6 +1710,11 @@ class FortranReaderBase:
             return _is_fix_comment(
                 line, self._format.is_strict, self._format.f2py_enabled
             )
+        if self._include_omp_conditional_lines:
+            # A conditional-compilation line is code, not a comment, for
+            # this reader (as in get_source_item).
+            line, _ = self.replace_omp_sentinels(line, self._re_omp_sentinel)
+            line, _ = self.replace_omp_sentinels(line, self._re_omp_sentinel_cont)
         new_line, _, had_comment = self.handle_inline_comment(
             line, 0, buffer_comments_to_fifo=False
         )
